@@ -462,14 +462,13 @@ def check_handlers_filter_quietly(ctx, rule: str, only: str | None = None) -> No
     if quiet_ok:
         from sa.cfg import specialize
 
-        val = {f"on_missing == {v!r}": (v == default) for v in valid_vals}
-        val["on_missing not in _VALID_ON_MISSING"] = False
-        val["on_missing in _VALID_ON_MISSING"] = True
+        from .common import policy_valuation
+
         for g in db.closure([fo], property_reads=False):
             if g.module != fo.module:
                 continue
             gcfg = ctx.cfg(g)
-            live = reachable(gcfg.entry, specialize(val))
+            live = reachable(gcfg.entry, specialize(policy_valuation(g, valid_vals, default)))
             for n in live:
                 if n.kind == "stmt" and isinstance(n.ast, ast.Raise):
                     quiet_ok = False
